@@ -27,7 +27,7 @@ var stateMachineSpec = map[string]map[string]string{
 	"ProcessHit":     {"DELIVER": "ProcessDeliver", "NONE": "ProcessDeliver", "PASS": "ProcessPass", "ERROR": "ProcessError", "RESTART": "restart"},
 	"ProcessPass":    {"PASS": "ProcessFetch", "NONE": "ProcessFetch", "ERROR": "ProcessError"},
 	"ProcessFetch":   {"DELIVER": "ProcessDeliver", "NONE": "ProcessDeliver", "DELIVER_STALE": "ProcessDeliver", "PASS": "ProcessDeliver", "HIT_FOR_PASS": "ProcessDeliver", "ERROR": "ProcessError", "RESTART": "restart"},
-	"ProcessError":   {"DELIVER": "ProcessDeliver", "NONE": "ProcessDeliver", "RESTART": "restart"},
+	"ProcessError":   {"DELIVER": "ProcessDeliver", "DELIVER_STALE": "ProcessDeliver", "NONE": "ProcessDeliver", "RESTART": "restart"},
 	"ProcessDeliver": {"DELIVER": "ProcessLog", "LOG": "ProcessLog", "NONE": "ProcessLog", "RESTART": "restart"},
 }
 
